@@ -423,10 +423,43 @@ def check_ucontext(ctx, P):
     o.check(bad is None, "getcontext -> stack -> makecontext", bad, site=ini.loc, construct="ucontext init")
 
 
+SPLITSTACK_SLOTS = 10     # libgcc generic-morestack.c: `void *context[NUMBER_OFFSETS]`, NUMBER_OFFSETS = 10 (part of libgcc's ABI)
+
+
+def check_splitstack_buffer(ctx, P, tag=""):
+    """the buffer every __splitstack_*context call is given holds the ten pointers libgcc reads and writes"""
+    calls = [(fn, c) for fn in P.unique_functions() for c in fn.calls()
+             if (c.callee or "").startswith("__splitstack_") and (c.callee or "").endswith(("context", "context_"))]
+    if not calls:
+        return
+    o = ctx.ob("splitstack.buffer" + tag, "", "every context buffer passed to libgcc's __splitstack_getcontext / setcontext / makecontext / releasecontext / "
+               "block_signals_context is an array of at least %d pointers" % SPLITSTACK_SLOTS,
+               "libgcc stores ten words through that pointer on every switch: a shorter array lets it overwrite what follows the buffer in fiber_context_t / "
+               "fiber_t (the fiber's join result, its state)")
+    bad = None
+    for fn, c in calls:
+        args = fn.args(c)
+        a = args[1] if c.callee == "__splitstack_makecontext" else args[0]
+        t = strip(a)
+        bits = None
+        if t is not None and t.k == "MemberExpr":
+            try:
+                bits = P.field(t.rec, t.field).get("bits_size")
+            except AnalysisBroken:
+                bits = None
+        if bits is None:
+            bad = bad or ("cannot size the buffer `%s`" % a.text, c)
+        elif bits < 64 * SPLITSTACK_SLOTS:
+            bad = bad or ("`%s` in %s passes a buffer of %d pointers, libgcc writes %d" % (c.text[:60], fn.name, bits // 64, SPLITSTACK_SLOTS), c)
+    o.check(bad is None, "%d calls, buffer = %d pointers" % (len(calls), SPLITSTACK_SLOTS), bad[0] if bad else None, site=bad[1] if bad else None,
+            construct="split-stack context buffer too small")
+
+
 def run(ctx):
     P = ctx.prog()
     R = check_swap(ctx, P)
     check_fresh(ctx, P, R)
+    check_splitstack_buffer(ctx, P)
     strategy = "split" if "-DFIBER_STACK_SPLIT" in P.manifest["flags"] else ("malloc" if "-DFIBER_STACK_MALLOC" in P.manifest["flags"] else "mmap")
     check_stack(ctx, P, strategy)
     check_stack_size(ctx, P, strategy)
